@@ -104,6 +104,34 @@ impl Cons {
         Ok(())
     }
 
+    /// Like `append`, but attaches `val` itself instead of a copy of it.
+    pub(crate) fn attach(&mut self, val: TulispObject) -> Result<(), Error> {
+        let mut last = self.cdr.clone();
+        let mut last_but_one = None;
+        while last.consp() {
+            last_but_one = Some(last.clone());
+            last = last.cdr()?;
+        }
+        if !last.null() {
+            return Err(Error::new(
+                ErrorKind::TypeMismatch,
+                "Unable to append: the target is not a proper list".to_string(),
+            ));
+        }
+        if let Some(last_but_one) = last_but_one {
+            last_but_one.assign(TulispValue::List {
+                cons: Cons {
+                    car: last_but_one.car()?,
+                    cdr: val,
+                },
+                ctxobj: last_but_one.ctxobj(),
+            })
+        } else {
+            self.cdr = val;
+        }
+        Ok(())
+    }
+
     pub fn iter(&self) -> BaseIter {
         BaseIter {
             next: Some(self.clone()),
